@@ -19,7 +19,7 @@ def run_check(patch, prop):
         if r.returncode != 0:
             return dict(applied=False, note=r.stdout[-300:] + r.stderr[-300:])
         t0 = time.time()
-        env = dict(os.environ, VERIF_REPO=d)
+        env = dict(os.environ, VERIF_REPO=d, VERIF_SHRINK="0")
         r = subprocess.run([sys.executable, os.path.join(VERIF, "vf", "driver.py"), prop, "--tier", "quick", "--no-evidence"],
                            env=env, capture_output=True, text=True)
         out = r.stdout + r.stderr
